@@ -170,22 +170,55 @@ theorem interp_eq_pwlRef {eps : K} {xp fp : List K} (h0 : 0 ≤ eps) (hs : Sep e
 
 /-! ## T17.2 the dot-product (accelerator) path agrees with the `jnp.interp` path -/
 
-/-- for at least two nodes `_dot_interp` and `jnp.interp` agree for every query, including ties
- with nodes, both ends and outside the range -/
-theorem dotInterp_eq_interp {eps : K} {xp fp : List K} (h0 : 0 ≤ eps) (hs : Sep eps xp)
-    (hl : xp.length = fp.length) (hn : 2 ≤ xp.length) (x : K) :
-    dotInterp xp fp x = interp eps xp fp x := by
-  rw [dotInterp_eq_cases xp fp x hl (by omega), interp_eq_cases,
-    linearExtrap_eq_cellValue xp fp x hl hn, interpCore_eq_cellValue h0 hs fp x hn]
-
 /-- with one node `linear_interp_with_linear_extrap` returns `0`, not the node value -/
 theorem linearExtrap_one_node (a f x : K) : linearExtrap [a] [f] x = 0 := by
   simp [linearExtrap, linWeights, cellWeights, dot]
 
-/-- with one node `_dot_interp` returns the node value everywhere except at the node, where it
- returns `0` -/
-theorem dotInterp_one_node (a f x : K) : dotInterp [a] [f] x = if x = a then 0 else f := by
-  rw [dotInterp_eq_cases [a] [f] x rfl (by simp), linearExtrap_one_node]
+/-- with one node `_dot_interp` returns the node value for every query (at, below and above the
+ node): the left override `x <= xp[0]` and the right override `x > xp[-1]` together cover every `x` -/
+theorem dotInterp_one_node (a f x : K) : dotInterp [a] [f] x = f := by
+  rw [dotInterp_eq_cases [a] [f] x rfl (by simp)]
+  simp only [List.length_cons, List.length_nil, Nat.zero_add, Nat.sub_self, List.getD_cons_zero]
+  by_cases h1 : a < x
+  · rw [if_pos h1]
+  · rw [if_neg h1, if_pos (not_lt.mp h1)]
+
+/-- for every node count `n ≥ 1` `_dot_interp` and `jnp.interp` agree for every query, including
+ ties with nodes, both ends and outside the range -/
+theorem dotInterp_eq_interp {eps : K} {xp fp : List K} (h0 : 0 ≤ eps) (hs : Sep eps xp)
+    (hl : xp.length = fp.length) (hn : 1 ≤ xp.length) (x : K) :
+    dotInterp xp fp x = interp eps xp fp x := by
+  by_cases hn2 : 2 ≤ xp.length
+  · have hi := hs.inc h0
+    rw [dotInterp_eq_cases xp fp x hl hn, interp_eq_cases]
+    by_cases h1 : xp.getD (xp.length - 1) 0 < x
+    · rw [if_pos h1, if_pos h1]
+    · rw [if_neg h1, if_neg h1]
+      by_cases h2 : x < xp.getD 0 0
+      · rw [if_pos h2.le, if_pos h2]
+      · rw [if_neg h2]
+        by_cases h3 : x ≤ xp.getD 0 0
+        · -- the query is the first node: the override returns `fp[0]`, which is what cell 0 gives
+          have hx : x = xp.getD 0 0 := le_antisymm h3 (not_lt.mp h2)
+          have hc : InCell xp 0 (xp.getD 0 0) :=
+            ⟨Or.inl rfl, Or.inr (hi.getD_le (Nat.le_succ 0) (by omega))⟩
+          rw [if_pos h3, hx, interpCore_cell h0 hs fp (j := 0) (by omega) hc, cellFormula_left]
+        · rw [if_neg h3, linearExtrap_eq_cellValue xp fp x hl hn2,
+            interpCore_eq_cellValue h0 hs fp x hn2]
+  · match xp, fp, hl, hn with
+    | [a], [f], _, _ => rw [dotInterp_one_node, interp_one_node]
+    | _ :: _ :: _, _, _, _ => simp at hn2
+
+/-! ### the pre-repair `_dot_interp` (left override `x < xp[0]`): regression witness
+
+`dotInterpOld` is what `_dot_interp` computed before the repair of finding `dot-interp-one-node`.
+It is no longer tied to the code; the harness replays the witness below against the model only and
+reports a violation with the input `(x, xp, fp) = (2, [2], [7])` if the code falls back to it. -/
+
+/-- with one node the pre-repair `_dot_interp` returns the node value everywhere except at the
+ node, where it returns `0` -/
+theorem dotInterpOld_one_node (a f x : K) : dotInterpOld [a] [f] x = if x = a then 0 else f := by
+  rw [dotInterpOld_eq_cases [a] [f] x rfl (by simp), linearExtrap_one_node]
   simp only [List.length_cons, List.length_nil, Nat.zero_add, Nat.sub_self, List.getD_cons_zero]
   by_cases h1 : a < x
   · rw [if_pos h1, if_neg (ne_of_gt h1)]
@@ -194,12 +227,31 @@ theorem dotInterp_one_node (a f x : K) : dotInterp [a] [f] x = if x = a then 0 e
     · rw [if_pos h2, if_neg (ne_of_lt h2)]
     · rw [if_neg h2, if_pos (le_antisymm (not_lt.mp h1) (not_lt.mp h2))]
 
-/-- … so with one node the two code paths of `interp` disagree at the node (finding
- `dot-interp-one-node`; replayed on the implementation: `7.0` vs `0.0`) -/
-theorem dotInterp_one_node_ne_interp (eps a f : K) (hf : f ≠ 0) :
-    dotInterp [a] [f] a ≠ interp eps [a] [f] a := by
-  rw [dotInterp_one_node, interp_one_node, if_pos rfl]
+/-- … so with one node the pre-repair accelerator path disagrees with the `jnp.interp` path at the
+ node (finding `dot-interp-one-node`, repaired; measured on the unrepaired code: `7.0` vs `0.0`) -/
+theorem dotInterpOld_one_node_ne_interp (eps a f : K) (hf : f ≠ 0) :
+    dotInterpOld [a] [f] a ≠ interp eps [a] [f] a := by
+  rw [dotInterpOld_one_node, interp_one_node, if_pos rfl]
   exact fun h => hf h.symm
+
+/-- the repair is behaviour-preserving for two or more strictly increasing nodes: there the old and
+ the new `_dot_interp` agree for every query (at the first node the un-overridden weights already
+ give the first node value) -/
+theorem dotInterpOld_eq_dotInterp {xp fp : List K} (hi : Inc xp) (hl : xp.length = fp.length)
+    (hn : 2 ≤ xp.length) (x : K) : dotInterpOld xp fp x = dotInterp xp fp x := by
+  rw [dotInterpOld_eq_cases xp fp x hl (by omega), dotInterp_eq_cases xp fp x hl (by omega)]
+  by_cases h1 : xp.getD (xp.length - 1) 0 < x
+  · rw [if_pos h1, if_pos h1]
+  · rw [if_neg h1, if_neg h1]
+    by_cases h2 : x < xp.getD 0 0
+    · rw [if_pos h2, if_pos h2.le]
+    · rw [if_neg h2]
+      by_cases h3 : x ≤ xp.getD 0 0
+      · have hx : x = xp.getD 0 0 := le_antisymm h3 (not_lt.mp h2)
+        have hc : InCell xp 0 (xp.getD 0 0) :=
+          ⟨Or.inl rfl, Or.inr (hi.getD_le (Nat.le_succ 0) (by omega))⟩
+        rw [if_pos h3, hx, linearExtrap_cell hi hl (j := 0) (by omega) hc, cellFormula_left]
+      · rw [if_neg h3]
 
 /-! ## T17.3 exactness on affine data -/
 
@@ -631,6 +683,11 @@ example : interp exEps [0, 1, 3] [5, 7, 4] 1 = 7 :=
   interp_node (fp := [5, 7, 4]) exEps_nonneg exSep rfl 1 (by simp)
 example (x : ℚ) : dotInterp [0, 1, 3] [5, 7, 4] x = interp exEps [0, 1, 3] [5, 7, 4] x :=
   dotInterp_eq_interp (fp := [5, 7, 4]) exEps_nonneg exSep rfl (by simp) x
+example (x : ℚ) : dotInterpOld [0, 1, 3] [5, 7, 4] x = dotInterp [0, 1, 3] [5, 7, 4] x :=
+  dotInterpOld_eq_dotInterp (fp := [5, 7, 4]) (exSep.inc exEps_nonneg) rfl (by simp) x
+-- one node: the hypotheses of `dotInterp_eq_interp` hold (`Sep` is vacuous) and the paths agree
+example (x : ℚ) : dotInterp [2] [7] x = interp exEps [2] [7] x :=
+  dotInterp_eq_interp (xp := [2]) (fp := [7]) exEps_nonneg (by intro j hj; simp at hj) rfl (by simp) x
 example (x : ℚ) : interp exEps [0, 1, 3] [5, 7, 4] x = pwlRef [0, 1, 3] [5, 7, 4] x :=
   interp_eq_pwlRef (fp := [5, 7, 4]) exEps_nonneg exSep rfl (by simp) x
 example (x : ℚ) : linearExtrap ([0, 1, 3] : List ℚ) ([0, 1, 3].map fun t => 2 + 5 * t) x = 2 + 5 * x :=
@@ -659,9 +716,13 @@ example : interp exEps [0, 1 / 40564819207303340847894502572032, 1] [0, 1, 2]
 example : (40564819207303340847894502572032 : ℚ) = 2 ^ 105 ∧
     (81129638414606681695789005144064 : ℚ) = 2 ^ 106 := by norm_num
 
-/-- the one-node corner on concrete numbers (replayed on the implementation: `7.0`, `0.0`, `0.0`) -/
-example : interp exEps [2] [7] 2 = 7 ∧ dotInterp ([2] : List ℚ) [7] 2 = 0 ∧
-    linearExtrap ([2] : List ℚ) [7] 2 = 0 := by
+/-- the one-node corner on concrete numbers: at, below and above the node both paths return the node
+ value (replayed on the implementation); the pre-repair `_dot_interp` returns `0` at the node
+ (replayed on the model only), as does `linear_interp_with_linear_extrap` everywhere -/
+example : interp exEps [2] [7] 2 = 7 ∧ dotInterp ([2] : List ℚ) [7] 2 = 7 ∧
+    dotInterp ([2] : List ℚ) [7] 1 = 7 ∧ dotInterp ([2] : List ℚ) [7] 3 = 7 ∧
+    dotInterpOld ([2] : List ℚ) [7] 2 = 0 ∧ dotInterpOld ([2] : List ℚ) [7] 1 = 7 ∧
+    dotInterpOld ([2] : List ℚ) [7] 3 = 7 ∧ linearExtrap ([2] : List ℚ) [7] 2 = 0 := by
   decide +kernel
 
 -- surface pressure: levels 500/850/1000, geopotential 55000/14000/1000, orography·g = 5000
